@@ -45,6 +45,6 @@ if not getattr(_b, "_vp_c01_loading", False):
     finally:
         _b._vp_c01_loading = False
 for _h in (_m.HARNESSES if _m else []):
-    if _h["name"] == "insert_nested2": _h2 = dict(_h); _h2["name"] = "C01_" + _h["name"]; HARNESSES.append(_h2)      # the put-back of a refused insertion
+    if _h["name"] in ("insert_nested2", "insert_nested3"): _h2 = dict(_h); _h2["name"] = "C01_" + _h["name"]; HARNESSES.append(_h2)      # the put-back of a refused insertion
 OUTSIDE = ["successful Group insertion + reconnect, restrict on inner objects, distance-based grouping (tree surgery under symbolic control)", "arbitrary-length call histories except through the one-step argument on the asserted invariants",
            "cpukinds (C15), distances (C13), memattrs (C14) steps are decided by their own properties"]
